@@ -100,6 +100,12 @@ func genProgram(r *sim.Rand, n int, p byte, e byte) []sim.Op {
 		case c < 86: // forward branch over a few bytes
 			k := r.Range(0, 4)
 			bop := byte(sim.PickInt(r, 0x80, 0x80, 0x10, 0x30, 0x50, 0x70, 0x90, 0xB0, 0xD0, 0xF0))
+			if r.Chance(1, 5) {
+				// a displacement at the edge of the signed range (the longest backward and forward
+				// branches); wherever it leads, all passes follow alike
+				emit([]byte{bop, byte(sim.PickInt(r, 0x80, 0x80, 0x7F, 0x81, 0xFF, 0xFE))})
+				continue
+			}
 			emit([]byte{bop, byte(k)})
 			for i := 0; i < k; i++ {
 				emit([]byte{simple[r.Intn(len(simple))]})
